@@ -522,6 +522,7 @@ func lexInsideAction(l *lexer) stateFn {
 			l.emit(itemUnderscore)
 			return lexInsideAction
 		}
+		l.width = 1 // peek() left the width of the peeked rune behind; '_' is one byte wide
 		fallthrough // no space? must be the start of an identifier
 	case isAlphaNumeric(r):
 		l.backup()
